@@ -26,6 +26,9 @@ import (
 // curT is the *testing.T of the running property (synctest needs one).
 var curT *testing.T
 
+// libClockSkew is how far whispertool.Now runs ahead of the command's wall clock inside atClock.
+var libClockSkew = time.Second
+
 // atClock runs f with time.Now() == now (Unix seconds) for all code called from f, using a
 // synctest bubble: the bubble's fake clock starts at 2000-01-01 and only advances by Sleep.
 func atClock(now int64, f func()) (panicMsg string) {
@@ -40,7 +43,14 @@ func atClock(now int64, f func()) (panicMsg string) {
 			return
 		}
 		time.Sleep(d)
+		// the library's own clock (whispertool.Now, consulted only when a caller passes now = 0) runs
+		// ahead of the command's clock: a command must take ONE reading and hand it to every library
+		// call; one that lets the library read the clock again behaves as if the clock had ticked
+		savedNow := wt.Now
+		skew := libClockSkew
+		wt.Now = func() time.Time { return time.Now().Add(skew) }
 		panicMsg = guard(f)
+		wt.Now = savedNow
 		done = true
 	})
 	if !done && panicMsg == "" {
